@@ -76,6 +76,8 @@ type verifSink struct {
 	mu    sync.Mutex
 	tries int
 	stall int32 // != 0: the readers of accepted stream connections do not read
+	// udp: closed by the reader of the current packet socket when it has logged everything it read
+	udpDone chan struct{}
 }
 
 func (s *verifSink) listenOnce() error {
@@ -108,9 +110,12 @@ func (s *verifSink) listen() error {
 			uc.SetReadBuffer(8 << 20)
 		}
 		pc := s.pc
+		done := make(chan struct{})
+		s.udpDone = done
 		s.wg.Add(1)
 		go func() {
 			defer s.wg.Done()
+			defer close(done)
 			buf := make([]byte, 1<<17)
 			for {
 				n, _, err := pc.ReadFrom(buf)
@@ -205,6 +210,13 @@ func (s *verifSink) down() {
 		if s.pc != nil {
 			s.pc.Close()
 			s.pc = nil
+			// the reader may hold a datagram it has read but not yet logged: it must be logged before the next
+			// socket's reader logs anything (on a loaded machine the order of the log was otherwise the
+			// scheduler's, not the sink's: a false "reordered" verdict, 2 in 99 402 thorough cases)
+			if s.udpDone != nil {
+				<-s.udpDone
+				s.udpDone = nil
+			}
 		}
 		return
 	}
